@@ -8,8 +8,8 @@ import (
 
 	"github.com/meshplus/bitxhub-kit/storage"
 	"github.com/meshplus/bitxhub-kit/types"
-	ethledger "github.com/meshplus/eth-kit/ledger"
 	"github.com/meshplus/bitxhub/verifhook"
+	ethledger "github.com/meshplus/eth-kit/ledger"
 	"pgregory.net/rapid"
 
 	"verifharness/sim"
